@@ -54,6 +54,26 @@ struct ZoneFile {
     alt: bool,
     /// version and kind of the file staged under the other path, if any
     staged: Option<(u32, FileKind)>,
+    /// the file that the zone file $INCLUDEs is currently broken (the zone file itself may be fine)
+    inc_broken: bool,
+}
+
+/// The zone file of `name`; `inc` is the absolute path of a file it includes at the end (a
+/// failure may then come from outside the zone file, and be repaired without touching it).
+fn zone_text_inc(name: &str, version: u32, kind: FileKind, inc: &Path) -> String {
+    let mut t = zone_text(name, version, kind);
+    if !matches!(kind, FileKind::Syntax | FileKind::Missing) {
+        t.push_str(&format!("$INCLUDE {}\n", inc.display()));
+    }
+    t
+}
+
+fn inc_text(broken: bool) -> &'static str {
+    if broken {
+        "i 60 IN TXT (((\n"
+    } else {
+        "i 60 IN TXT \"included\"\n"
+    }
 }
 
 fn zone_text(name: &str, version: u32, kind: FileKind) -> String {
@@ -197,19 +217,19 @@ impl History {
             } else {
                 let f = self.files.get_mut(*z).unwrap();
                 let failed_state = if prev == State::Absent { State::FailedNeverLoaded } else { prev };
+                // a file is loaded when it changed since the last SUCCESSFUL load (a failed
+                // attempt is repeated at every reload until it succeeds)
                 match f.kind {
                     FileKind::Missing => failed_state,
                     _ if !f.touched && matches!(prev, State::Serving(_)) => prev,
-                    FileKind::Valid | FileKind::ValidWarn => State::Serving(f.version),
+                    FileKind::Valid | FileKind::ValidWarn if !f.inc_broken => {
+                        f.touched = false;
+                        State::Serving(f.version)
+                    }
                     _ => failed_state,
                 }
             };
             next.insert(z.to_string(), st);
-        }
-        for z in self.configured.clone() {
-            if let Some(f) = self.files.get_mut(&z) {
-                f.touched = false;
-            }
         }
         self.states = next;
     }
@@ -225,7 +245,7 @@ impl History {
 }
 
 fn describe(h: &History) -> Json {
-    Json::Arr(UNIVERSE.iter().map(|z| Json::s(format!("{} configured={} file={:?} expected={:?}", z, h.configured.iter().any(|c| c == z), h.files.get(*z).map(|f| (f.version, f.kind)), h.states.get(*z)))).collect())
+    Json::Arr(UNIVERSE.iter().map(|z| Json::s(format!("{} configured={} file={:?} expected={:?}", z, h.configured.iter().any(|c| c == z), h.files.get(*z).map(|f| (f.version, f.kind, f.inc_broken, f.touched)), h.states.get(*z)))).collect())
 }
 
 pub fn run(ctx: &Ctx, rep: &mut Report) {
@@ -266,10 +286,11 @@ pub fn run(ctx: &Ctx, rep: &mut Report) {
         let mut version = 1u32;
         for z in UNIVERSE.iter() {
             let kind = *rng.pick(&[FileKind::Valid, FileKind::Valid, FileKind::Valid, FileKind::ValidWarn, FileKind::Syntax, FileKind::Semantic, FileKind::SemanticWarn, FileKind::Missing]);
-            h.files.insert(z.to_string(), ZoneFile { version, kind, touched: true, alt: false, staged: None });
+            h.files.insert(z.to_string(), ZoneFile { version, kind, touched: true, alt: false, staged: None, inc_broken: false });
             if kind != FileKind::Missing {
-                let _ = write_with_mtime(&dir.join(file_name(z)), &zone_text(z, version, kind), epoch);
+                let _ = write_with_mtime(&dir.join(file_name(z)), &zone_text_inc(z, version, kind, &dir.join(format!("{}inc", z))), epoch);
             }
+            let _ = std::fs::write(dir.join(format!("{}inc", z)), inc_text(false));
             if rng.chance(1, 2) {
                 h.configured.push(z.to_string());
             }
@@ -353,7 +374,7 @@ pub fn run(ctx: &Ctx, rep: &mut Report) {
                             if kind == FileKind::Missing {
                                 let _ = std::fs::remove_file(&path);
                             } else {
-                                let _ = write_with_mtime(&path, &zone_text(z, version, kind), mtime);
+                                let _ = write_with_mtime(&path, &zone_text_inc(z, version, kind, &dir.join(format!("{}inc", z))), mtime);
                             }
                             edits.push(format!("{}:=v{}{:?}", z, version, kind));
                         }
@@ -368,8 +389,8 @@ pub fn run(ctx: &Ctx, rep: &mut Report) {
                             f.touched = true;
                             let staged_kind = *rng.pick(&[FileKind::Valid, FileKind::Valid, FileKind::Syntax]);
                             f.staged = Some((version, staged_kind));
-                            let _ = write_with_mtime(&dir.join(path_name(z, f.alt)), &zone_text(z, version - 1, FileKind::Valid), mtime);
-                            let _ = write_with_mtime(&dir.join(path_name(z, !f.alt)), &zone_text(z, version, staged_kind), mtime - Duration::from_secs(5));
+                            let _ = write_with_mtime(&dir.join(path_name(z, f.alt)), &zone_text_inc(z, version - 1, FileKind::Valid, &dir.join(format!("{}inc", z))), mtime);
+                            let _ = write_with_mtime(&dir.join(path_name(z, !f.alt)), &zone_text_inc(z, version, staged_kind, &dir.join(format!("{}inc", z))), mtime - Duration::from_secs(5));
                             edits.push(format!("{}:=v{}Valid,staged:{}=v{}{:?}", z, version - 1, path_name(z, !f.alt), version, staged_kind));
                         }
                         6 => {
@@ -383,6 +404,13 @@ pub fn run(ctx: &Ctx, rep: &mut Report) {
                                 f.touched = true;
                                 edits.push(format!("{}:path->{}(v{}{:?})", z, path_name(z, f.alt), v, kind));
                             }
+                        }
+                        7 => {
+                            // break or repair the included file; the zone file itself is not touched
+                            let f = h.files.get_mut(*z).unwrap();
+                            f.inc_broken = !f.inc_broken;
+                            let _ = std::fs::write(dir.join(format!("{}inc", z)), inc_text(f.inc_broken));
+                            edits.push(format!("{}:include-{}", z, if f.inc_broken { "broken" } else { "repaired" }));
                         }
                         3 | 4 => {
                             let configured = h.configured.iter().any(|c| c == z);
